@@ -279,31 +279,33 @@ func unpackBundleFileList(ctx context.Context, bundle *Bundle,
 	bundle.l.Info("preallocating bundle entries",
 		zap.Uint64("max entries", maxBundleEntries),
 	)
-	bundle.BundleEntries = make([]model.BundleEntry, maxBundleEntries)
+	// entries are collected per index file: a file list may hold fewer entries than
+	// the maximum, either because it is the last one or because files have been
+	// deleted from the repo (DeleteEntriesFromRepo rewrites file lists in place)
+	perFile := make([][]model.BundleEntry, bundle.BundleDescriptor.BundleEntriesFileCount)
 
 	var gotDoneSignal bool
 	for !gotDoneSignal {
 		select {
 		case res := <-bundleEntriesC:
-			startIdx := int(res.idx) * int(bundleEntriesPerFile)
-			copy(bundle.BundleEntries[startIdx:], res.bundleEntries.BundleEntries)
-			if res.idx+1 == bundle.BundleDescriptor.BundleEntriesFileCount {
-				missingEntries := int(bundleEntriesPerFile) - len(res.bundleEntries.BundleEntries)
-				if missingEntries < 0 {
-					return fmt.Errorf("%v is greater than expected number of bundle entries %v",
-						len(res.bundleEntries.BundleEntries), bundleEntriesPerFile)
-				}
-				bundle.BundleEntries = bundle.BundleEntries[:len(bundle.BundleEntries)-missingEntries]
-			} else if uint(len(res.bundleEntries.BundleEntries)) != bundleEntriesPerFile {
-				return fmt.Errorf("%v is not expected number of bundle entries %v",
+			if uint(len(res.bundleEntries.BundleEntries)) > bundleEntriesPerFile {
+				return fmt.Errorf("%v is greater than expected number of bundle entries %v",
 					len(res.bundleEntries.BundleEntries), bundleEntriesPerFile)
 			}
+			if res.idx >= uint64(len(perFile)) {
+				return fmt.Errorf("unexpected file list index %d", res.idx)
+			}
+			perFile[res.idx] = res.bundleEntries.BundleEntries
 		case err := <-errorC:
 			bundle.l.Error("unpack bundle filelist failed", zap.Error(err))
 			return err
 		case <-doneOkC:
 			gotDoneSignal = true
 		}
+	}
+	bundle.BundleEntries = make([]model.BundleEntry, 0, maxBundleEntries)
+	for _, entries := range perFile {
+		bundle.BundleEntries = append(bundle.BundleEntries, entries...)
 	}
 	return nil
 }
